@@ -100,7 +100,7 @@ fn gen_sequential(rng: &mut Rng) -> Program {
                 };
                 Op::SetSafe { key, ver, val }
             }
-            6 | 7 => Op::Inc { key, by: rng.range(1, 5) as i32 },
+            6 | 7 => Op::Inc { key, by: rng.range(0, 5) as i32 },
             8 => Op::Remove { key },
             _ => Op::GetSafe { key },
         };
@@ -160,7 +160,7 @@ fn gen_concurrent(rng: &mut Rng) -> Program {
                     };
                     Op::SetSafe { key, ver: Ver::Abs(ver.max(0)), val }
                 }
-                7 | 8 => Op::Inc { key, by: rng.range(1, 3) as i32 },
+                7 | 8 => Op::Inc { key, by: rng.range(0, 3) as i32 },
                 9 => Op::Remove { key },
                 _ => Op::GetSafe { key },
             };
